@@ -49,7 +49,7 @@ def check(ctx, tier):
     tk.purity("C17.j", [fn for fn in fs if fn.name not in ("__init__",)], "operations on 2-D run-length arrays do not modify their operands", content_only=True)
     W.report(ctx, tk, "C17.k", fs)
     from .. import hazards as _hz, scopes as _sc
-    _hz.generic(ctx, tk, "C17.z", _sc.scope(tk, "C17"))
+    _hz.generic(ctx, tk, "C17.z", _sc.scope(tk, "C17", depth=2))
     return {}
 
 
@@ -233,6 +233,19 @@ def column_range_bounds(ctx, tk):
         from ..bounds import refine_from_facts
         ref = refine_from_facts(facts, is_subj)
         viewrules_interval(ctx, "C17.g", f, fa, core, is_N, is_subj, ref, what, n.ast, "%s:%s" % (n.ast.targets[0].id, n.lineno))
+        # the wrap N + bound is taken exactly for negative bounds (a bound of 0 stays 0)
+        if any(x.k == "bin" and x.a[0] == "+" and ((is_N(x.a[1]) and is_subj(x.a[2])) or (is_N(x.a[2]) and is_subj(x.a[1]))) for x in walk(core)):
+            subj_t = [y for x in walk(core) if x.k == "bin" and x.a[0] == "+" for y in (x.a[1], x.a[2]) if is_subj(y)][0]
+            iv = ref.get(repr(subj_t))
+            from ..bounds import le
+            whatw = "a column-range bound is wrapped by the row length exactly when it is negative (a bound of 0 stays 0)"
+            if iv is None:
+                ctx.unknown("C17.g", f, whatw, "no sign test dominates the wrap", node=n.ast, key="wrap:%s" % n.ast.targets[0].id, engine="E8")
+            else:
+                okw = le(iv[1], (0, -1))
+                ctx.decide("C17.g", f, whatw, True if okw is True else (False if okw is False else None),
+                           "the wrap `%s` is taken for bounds up to %s: a bound of 0 becomes the row length (rl[:, 3:0:-1] comes back empty)" % (
+                               core, iv[1][1] if isinstance(iv[1], tuple) and len(iv[1]) == 2 else iv[1]), node=n.ast, key="wrap:%s" % n.ast.targets[0].id, engine="E8")
     if not found:
         ctx.unknown("C17.g", f, what, "clamp statements not recognised", engine="E8")
 
